@@ -314,7 +314,7 @@ func runGSync(f *hx.Flags) {
 	variant := "cur"
 	nprog, nsched, bound, limit := r.N(700), 6, 2, 8000
 	if f.Tier == "thorough" {
-		nprog, nsched, bound, limit = r.N(12000), 12, 3, 400000
+		nprog, nsched, bound, limit = r.N(12000), 12, 3, 300000
 	}
 	for i := 0; i < nprog; i++ {
 		progs := genProgs(r.Rng)
